@@ -28,6 +28,8 @@ var prefixOps = map[string]opDef{
 	":-": {1200, "fx"}, "\\+": {900, "fy"}, "-": {200, "fy"},
 }
 
+var anonSeq int
+
 type tok struct {
 	kind string // atom, var, int, str, punct, end
 	s    string
@@ -258,7 +260,8 @@ func (r *reader) primary(max int) (Term, int, error) {
 		return Int(v), 0, nil
 	case "var":
 		if t.s == "_" {
-			return NewVar("_"), 0, nil
+			anonSeq++
+			return NewVar(fmt.Sprintf("_A%d", anonSeq)), 0, nil
 		}
 		if v, ok := r.vars[t.s]; ok {
 			return v, 0, nil
